@@ -328,86 +328,273 @@ func execC15Curve(c *vf.Ctx, cs c15Case, fail func(kind, class, what, obs, req s
 	p2, ok2 := c15RefPoint(x2, y2)
 	on1 := ok1 && grpK1OnCurve(p1)
 	on2 := ok2 && grpK1OnCurve(p2)
-	cmpXY := func(op string, gx, gy *big.Int, want grpK1Pt, inDomain bool, res vf.Wire, ok bool) {
-		wx, wy := grpK1Affine(want)
-		if inDomain && (gx.Cmp(wx) != 0 || gy.Cmp(wy) != 0) {
-			fail("property", "c15-curve-"+op, op+" disagrees with textbook affine arithmetic", grpXY(gx, gy), grpXY(wx, wy))
-		}
-		if ok {
-			o := vf.AsOutcome(res)
-			if o.Tag != "ok" || len(o.Val.Arr) != 2 || o.Val.Arr[0].Int.Cmp(gx) != 0 || o.Val.Arr[1].Int.Cmp(gy) != 0 {
-				fail("correspondence", "c15-translation-curve-"+op, "Lean model of the elliptic.Curve method disagrees", grpXY(gx, gy), res.Render())
-			}
-		}
-	}
-	modelPanics := func(op string, args ...vf.Wire) {
-		if res, ok := model(op, args...); ok && vf.AsOutcome(res).Tag != "panic" {
-			fail("correspondence", "c15-translation-curve-panic", "Go panics (invalid point), the model does not", "panic", res.Render())
-		}
-	}
+	inRange := func(v *big.Int) bool { return v.Sign() >= 0 && v.Cmp(k1P) < 0 }
+	c.Count("curve:x-" + c15RangeClass(x1) + "/y-" + c15RangeClass(y1))
+
+	// (1) run the implementation only; nothing else inside the recover
+	var gx, gy *big.Int
+	var gotOn bool
+	var npLimbs [8]uint64
+	var npErr error
 	panicked, what := vf.Recover(func() {
 		switch cs.Op {
 		case "isOnCurve":
-			got := curve.IsOnCurve(x1, y1)
-			want := x1.Sign() >= 0 && y1.Sign() >= 0 && x1.Cmp(k1P) < 0 && y1.Cmp(k1P) < 0 && grpK1OnCurve(grpK1Pt{x1, y1, false})
-			if got != want {
-				fail("property", "c15-isoncurve", "IsOnCurve does not hold for exactly the affine curve points with coordinates below p", fmt.Sprint(got), fmt.Sprint(want))
-			}
-			c.Count(fmt.Sprintf("isOnCurve:%v", got))
-			if res, ok := model("k1.isOnCurve", vf.BigInt(x1), vf.BigInt(y1)); ok && res.Bool != got {
-				fail("correspondence", "c15-translation-isoncurve", "IsOnCurve differs", fmt.Sprint(got), res.Render())
+			gotOn = curve.IsOnCurve(x1, y1)
+		case "newPoint":
+			var p verifhook.K1Point
+			var np *verifhook.K1Point
+			np, npErr = p.NewPoint(x1, y1)
+			if npErr == nil {
+				fx, fy := np.VerifAffineCoords()
+				lx, ly := fx.VerifLimbs(), fy.VerifLimbs()
+				copy(npLimbs[0:4], lx[:])
+				copy(npLimbs[4:8], ly[:])
 			}
 		case "add":
-			gx, gy := curve.Add(x1, y1, x2, y2)
-			res, ok := model("k1.add", vf.BigInt(x1), vf.BigInt(y1), vf.BigInt(x2), vf.BigInt(y2))
-			cmpXY("add", gx, gy, grpK1Add(p1, p2), on1 && on2, res, ok)
+			gx, gy = curve.Add(x1, y1, x2, y2)
 		case "double":
-			gx, gy := curve.Double(x1, y1)
-			res, ok := model("k1.double", vf.BigInt(x1), vf.BigInt(y1))
-			cmpXY("double", gx, gy, grpK1Add(p1, p1), on1, res, ok)
+			gx, gy = curve.Double(x1, y1)
 		case "scalarMult":
-			gx, gy := curve.ScalarMult(x1, y1, cs.K)
-			var res vf.Wire
-			ok := false
-			if cs.Model {
-				res, ok = model("k1.scalarMult", vf.BigInt(x1), vf.BigInt(y1), vf.Bytes(cs.K))
-			}
-			cmpXY("scalarmult", gx, gy, grpK1Mul(new(big.Int).SetBytes(cs.K), p1), on1, res, ok)
+			gx, gy = curve.ScalarMult(x1, y1, cs.K)
 		case "scalarBaseMult":
-			gx, gy := curve.ScalarBaseMult(cs.K)
-			var res vf.Wire
-			ok := false
-			if cs.Model {
-				res, ok = model("k1.scalarBaseMult", vf.Bytes(cs.K))
-			}
-			cmpXY("basemult", gx, gy, grpK1Mul(new(big.Int).SetBytes(cs.K), grpK1Base()), true, res, ok)
+			gx, gy = curve.ScalarBaseMult(cs.K)
 		case "combinedMult":
-			cm := curve.(grpCombined)
-			gx, gy := cm.CombinedMult(x1, y1, cs.K, cs.K2)
-			want := grpK1Add(grpK1Mul(new(big.Int).SetBytes(cs.K), grpK1Base()), grpK1Mul(new(big.Int).SetBytes(cs.K2), p1))
-			var res vf.Wire
-			ok := false
-			if cs.Model {
-				res, ok = model("k1.combinedMult", vf.BigInt(x1), vf.BigInt(y1), vf.Bytes(cs.K), vf.Bytes(cs.K2))
-			}
-			cmpXY("combinedmult", gx, gy, want, on1, res, ok)
+			gx, gy = curve.(grpCombined).CombinedMult(x1, y1, cs.K, cs.K2)
 		}
 	})
-	if panicked {
-		// the wrappers panic("invalid point") exactly for negative / >= p coordinates
-		invalid := !ok1 || (cs.Op == "add" && !ok2)
-		if !invalid || cs.Op == "isOnCurve" || cs.Op == "scalarBaseMult" {
-			fail("property", "c15-panic-"+cs.Op, "elliptic.Curve method panicked on valid coordinates: "+what, what, "no panic")
+
+	// (2) expectations
+	switch cs.Op {
+	case "isOnCurve":
+		if panicked {
+			fail("property", "c15-panic-isOnCurve", "IsOnCurve panicked: "+what, what, "no panic")
 			return
 		}
-		c.Count("curve:invalid-point-panic")
-		switch cs.Op {
-		case "add":
-			modelPanics("k1.add", vf.BigInt(x1), vf.BigInt(y1), vf.BigInt(x2), vf.BigInt(y2))
-		case "double":
-			modelPanics("k1.double", vf.BigInt(x1), vf.BigInt(y1))
+		want := inRange(x1) && inRange(y1) && grpK1OnCurve(grpK1Pt{x1, y1, false})
+		if gotOn != want {
+			fail("property", "c15-isoncurve", "IsOnCurve does not hold for exactly the affine curve points with coordinates 0 <= x, y < p",
+				fmt.Sprintf("%v for %s", gotOn, grpXY(x1, y1)), fmt.Sprint(want))
+		}
+		c.Count(fmt.Sprintf("isOnCurve:%v", gotOn))
+		if res, ok := model("k1.isOnCurve", vf.BigInt(x1), vf.BigInt(y1)); ok && res.Bool != gotOn {
+			fail("correspondence", "c15-translation-isoncurve", "IsOnCurve differs", fmt.Sprint(gotOn), res.Render())
+		}
+		return
+	case "newPoint":
+		// the big.Int -> field conversion on entry (tie of C15.newPoint_spec)
+		if panicked {
+			fail("property", "c15-panic-newPoint", "NewPoint panicked: "+what, what, "no panic")
+			return
+		}
+		want := inRange(x1) && inRange(y1)
+		if (npErr == nil) != want {
+			fail("property", "c15-newpoint-range", "NewPoint does not accept exactly the coordinate pairs with 0 <= x, y < p",
+				fmt.Sprintf("err=%v for %s", npErr, grpXY(x1, y1)), fmt.Sprint(want))
+		}
+		if npErr == nil {
+			vx := k1LimbsVal([4]uint64{npLimbs[0], npLimbs[1], npLimbs[2], npLimbs[3]})
+			vy := k1LimbsVal([4]uint64{npLimbs[4], npLimbs[5], npLimbs[6], npLimbs[7]})
+			if vx.Cmp(x1) != 0 || vy.Cmp(y1) != 0 {
+				fail("property", "c15-newpoint-value", "NewPoint stores other values than its arguments", grpXY(vx, vy), grpXY(x1, y1))
+			}
+		}
+		if res, ok := model("k1.newPoint", vf.BigInt(x1), vf.BigInt(y1)); ok {
+			o := vf.AsOutcome(res)
+			switch {
+			case o.Tag == "ok" && npErr == nil:
+				if fmt.Sprint(fromWireInts(o.Val)) != fmt.Sprint(npLimbs[:]) {
+					fail("correspondence", "c15-translation-newPoint", "stored limbs differ", fmt.Sprint(npLimbs), res.Render())
+				}
+			case o.Tag == "err" && npErr != nil:
+			default:
+				fail("correspondence", "c15-translation-newPoint", "model and implementation disagree on acceptance", fmt.Sprint(npErr), res.Render())
+			}
+		}
+		return
+	}
+	// the mutating methods: panic("invalid point") exactly for arguments rejected by NewPoint
+	invalid := (cs.Op != "scalarBaseMult" && !ok1) || (cs.Op == "add" && !ok2)
+	var mres vf.Wire
+	mok := false
+	switch cs.Op {
+	case "add":
+		mres, mok = model("k1.add", vf.BigInt(x1), vf.BigInt(y1), vf.BigInt(x2), vf.BigInt(y2))
+	case "double":
+		mres, mok = model("k1.double", vf.BigInt(x1), vf.BigInt(y1))
+	case "scalarMult":
+		if cs.Model || invalid {
+			mres, mok = model("k1.scalarMult", vf.BigInt(x1), vf.BigInt(y1), vf.Bytes(cs.K))
+		}
+	case "scalarBaseMult":
+		if cs.Model {
+			mres, mok = model("k1.scalarBaseMult", vf.Bytes(cs.K))
+		}
+	case "combinedMult":
+		if cs.Model {
+			mres, mok = model("k1.combinedMult", vf.BigInt(x1), vf.BigInt(y1), vf.Bytes(cs.K), vf.Bytes(cs.K2))
 		}
 	}
+	if invalid {
+		c.Count("curve:invalid-argument")
+		if !panicked {
+			fail("property", "c15-curve-invalid-accepted", cs.Op+" accepts a coordinate outside [0, p) (must panic: invalid point)",
+				grpXY(gx, gy), "panic for "+grpXY(x1, y1)+" / "+grpXY(x2, y2))
+		}
+		if mok && vf.AsOutcome(mres).Tag != "panic" {
+			fail("correspondence", "c15-translation-curve-panic", "the model does not reject the invalid point", "panic="+fmt.Sprint(panicked), mres.Render())
+		}
+		return
+	}
+	if panicked {
+		fail("property", "c15-panic-"+cs.Op, "elliptic.Curve method panicked on valid coordinates: "+what, what, "no panic")
+		return
+	}
+	var want grpK1Pt
+	inDomain := false
+	op := cs.Op
+	switch cs.Op {
+	case "add":
+		inDomain = on1 && on2
+		if inDomain {
+			want = grpK1Add(p1, p2)
+		}
+	case "double":
+		inDomain = on1
+		if inDomain {
+			want = grpK1Add(p1, p1)
+		}
+	case "scalarMult":
+		op = "scalarmult"
+		inDomain = on1
+		if inDomain {
+			want = grpK1Mul(new(big.Int).SetBytes(cs.K), p1)
+		}
+	case "scalarBaseMult":
+		op = "basemult"
+		inDomain = true
+		want = grpK1Mul(new(big.Int).SetBytes(cs.K), grpK1Base())
+	case "combinedMult":
+		op = "combinedmult"
+		inDomain = on1
+		if inDomain {
+			want = grpK1Add(grpK1Mul(new(big.Int).SetBytes(cs.K), grpK1Base()), grpK1Mul(new(big.Int).SetBytes(cs.K2), p1))
+		}
+	}
+	if inDomain {
+		wx, wy := grpK1Affine(want)
+		if gx.Cmp(wx) != 0 || gy.Cmp(wy) != 0 {
+			fail("property", "c15-curve-"+op, op+" disagrees with textbook affine arithmetic", grpXY(gx, gy), grpXY(wx, wy))
+		}
+	}
+	if mok {
+		o := vf.AsOutcome(mres)
+		if o.Tag != "ok" || len(o.Val.Arr) != 2 || o.Val.Arr[0].Int.Cmp(gx) != 0 || o.Val.Arr[1].Int.Cmp(gy) != 0 {
+			fail("correspondence", "c15-translation-curve-"+op, "Lean model of the elliptic.Curve method disagrees", grpXY(gx, gy), mres.Render())
+		}
+	}
+}
+
+// coarse class of a coordinate for the distribution record
+func c15RangeClass(v *big.Int) string {
+	switch {
+	case v.Sign() < 0:
+		return "neg"
+	case v.Sign() == 0:
+		return "0"
+	case v.Cmp(k1P) < 0:
+		return "in"
+	case v.Cmp(k1P) == 0:
+		return "p"
+	case v.BitLen() <= 256:
+		return "[p,2^256)"
+	default:
+		return ">=2^256"
+	}
+}
+
+// ---- coordinate-range stream: curve points with a SMALL coordinate, so that x + p and y + p stay below 2^256 ----
+
+var c15SmallPts []grpK1Pt
+
+// c15SmallPoints: curve points (t, y) for the first t = 1, 2, … with t³ + 7 a square (p ≡ 3 mod 4: y = a^((p+1)/4)),
+// and points (x, u) for the first u = 1, 2, … with u² − 7 a cube (p ≡ 7 mod 9: x = a^((p+2)/9), checked by cubing)
+func c15SmallPoints() []grpK1Pt {
+	if c15SmallPts != nil {
+		return c15SmallPts
+	}
+	var pts []grpK1Pt
+	e := new(big.Int).Rsh(new(big.Int).Add(k1P, big.NewInt(1)), 2)
+	for t := int64(1); len(pts) < 5; t++ {
+		a := new(big.Int).Mod(new(big.Int).Add(new(big.Int).Exp(big.NewInt(t), big.NewInt(3), k1P), big.NewInt(7)), k1P)
+		y := new(big.Int).Exp(a, e, k1P)
+		if new(big.Int).Mod(new(big.Int).Mul(y, y), k1P).Cmp(a) == 0 {
+			pts = append(pts, grpK1Pt{big.NewInt(t), y, false})
+		}
+	}
+	e3 := new(big.Int).Div(new(big.Int).Add(k1P, big.NewInt(2)), big.NewInt(9))
+	for u, n := int64(1), 0; n < 3 && u < 200; u++ {
+		a := new(big.Int).Mod(big.NewInt(u*u-7), k1P)
+		x := new(big.Int).Exp(a, e3, k1P)
+		if new(big.Int).Exp(x, big.NewInt(3), k1P).Cmp(a) == 0 {
+			pts = append(pts, grpK1Pt{x, big.NewInt(u), false})
+			n++
+		}
+	}
+	c15SmallPts = pts
+	return pts
+}
+
+// all admissible and inadmissible spellings of a coordinate v (0 < v < p)
+func c15CoordVariants(v *big.Int) []*big.Int {
+	out := []*big.Int{
+		new(big.Int).Set(v),                    // v
+		new(big.Int).Sub(k1P, v),               // p − v (the negated coordinate, in range)
+		new(big.Int).Neg(v),                    // −v
+		new(big.Int).Add(v, two256),            // v + 2^256
+		new(big.Int).Set(k1P),                  // p
+		big.NewInt(0),                          // 0
+		new(big.Int).Sub(v, k1P),               // v − p (negative, ≡ v)
+		new(big.Int).Add(v, new(big.Int).Lsh(k1P, 1)), // v + 2p
+	}
+	if vp := new(big.Int).Add(v, k1P); vp.BitLen() <= 256 {
+		out = append(out, vp) // v + p, still below 2^256: ≡ v but NOT an admissible coordinate
+	}
+	return out
+}
+
+// c15RangeCases: every combination of coordinate spellings for the small points, for every method taking a point
+func c15RangeCases() []c15Case {
+	var out []c15Case
+	G := grpK1Base()
+	gx, gy := G.X.String(), G.Y.String()
+	for pi, P := range c15SmallPoints() {
+		for xi, x := range c15CoordVariants(P.X) {
+			for yi, y := range c15CoordVariants(P.Y) {
+				xs, ys := x.String(), y.String()
+				out = append(out, c15Case{Kind: "curve", Op: "isOnCurve", X1: xs, Y1: ys})
+				out = append(out, c15Case{Kind: "curve", Op: "newPoint", X1: xs, Y1: ys})
+				switch (pi + xi + yi) % 5 { // the mutating methods in rotation (each spelling pair meets each of them over the points)
+				case 0:
+					out = append(out, c15Case{Kind: "curve", Op: "add", X1: xs, Y1: ys, X2: gx, Y2: gy})
+				case 1:
+					out = append(out, c15Case{Kind: "curve", Op: "add", X1: gx, Y1: gy, X2: xs, Y2: ys})
+				case 2:
+					out = append(out, c15Case{Kind: "curve", Op: "double", X1: xs, Y1: ys})
+				case 3:
+					out = append(out, c15Case{Kind: "curve", Op: "scalarMult", X1: xs, Y1: ys, K: []byte{byte(3 + xi)}})
+				default:
+					out = append(out, c15Case{Kind: "curve", Op: "combinedMult", X1: xs, Y1: ys, K: []byte{2}, K2: []byte{byte(1 + yi)}})
+				}
+			}
+		}
+	}
+	// (0, sqrt 7) does not exist; (0, y), (x, 0), (p, y), (x, p)
+	for _, pr := range [][2]*big.Int{{big.NewInt(0), big.NewInt(7)}, {k1P, G.Y}, {G.X, k1P}, {k1P, k1P}, {big.NewInt(0), G.Y}, {G.X, big.NewInt(0)}} {
+		for _, op := range []string{"isOnCurve", "newPoint", "double", "scalarMult"} {
+			out = append(out, c15Case{Kind: "curve", Op: op, X1: pr[0].String(), Y1: pr[1].String(), K: []byte{5}})
+		}
+	}
+	return out
 }
 
 // independent ECDSA over secp256k1 with math/big (FIPS 186-4 §6.4, textbook)
@@ -548,7 +735,7 @@ func genC15(r *vf.Rand) c15Case {
 		}
 		return cs
 	case n < 19:
-		op := []string{"isOnCurve", "isOnCurve", "add", "double", "scalarMult", "scalarBaseMult", "combinedMult"}[r.Intn(7)]
+		op := []string{"isOnCurve", "isOnCurve", "newPoint", "add", "double", "scalarMult", "scalarBaseMult", "combinedMult"}[r.Intn(8)]
 		cs := c15Case{Kind: "curve", Op: op, K: c15Scalar(r), K2: c15Scalar(r)}
 		P, Q := c15RandPoint(r), c15RandPoint(r)
 		switch r.Intn(6) {
@@ -564,7 +751,17 @@ func genC15(r *vf.Rand) c15Case {
 		px, py := grpK1Affine(P)
 		qx, qy := grpK1Affine(Q)
 		px, py = new(big.Int).Set(px), new(big.Int).Set(py)
-		if op == "isOnCurve" || r.Intn(10) == 0 { // invalid / boundary coordinates
+		if r.Intn(4) == 0 { // small-coordinate curve point in a random (in)admissible spelling
+			sp := c15SmallPoints()
+			S := sp[r.Intn(len(sp))]
+			vx, vy := c15CoordVariants(S.X), c15CoordVariants(S.Y)
+			px, py = vx[r.Intn(len(vx))], vy[r.Intn(len(vy))]
+			if r.Bool() {
+				px = new(big.Int).Set(S.X)
+			} else if r.Bool() {
+				py = new(big.Int).Set(S.Y)
+			}
+		} else if op == "isOnCurve" || r.Intn(10) == 0 { // invalid / boundary coordinates
 			switch r.Intn(8) {
 			case 0:
 				px.Add(px, k1P) // x ≥ p, congruent to a curve point
@@ -622,9 +819,15 @@ func runC15(c *vf.Ctx) {
 	if SearchMode() {
 		n *= 3
 	}
-	c.Parallel(0, true, func(w int, r *vf.Rand, d *vf.Driver) {
+	c.Parallel(16, true, func(w int, r *vf.Rand, d *vf.Driver) {
 		if w == 0 {
 			for _, cs := range cornersC15() {
+				execC15(c, d, cs)
+			}
+		}
+		// coordinate-range sweep (deterministic), spread over the workers
+		for i, cs := range c15RangeCases() {
+			if i%16 == w {
 				execC15(c, d, cs)
 			}
 		}
